@@ -5,7 +5,8 @@ use bitcode::{Decode, Encode};
 use crate::{
     cf_types::CfRule,
     types::{
-        Cell, Col, Color, Dxf, Link, Row, SheetState, Style, StyleIncludes, Theme, Worksheet,
+        Cell, Col, Color, DefinedName, Dxf, Link, Row, SheetState, Style, StyleIncludes, Theme,
+        Worksheet,
     },
 };
 
@@ -151,6 +152,8 @@ pub(crate) enum Diff {
     DeleteSheet {
         sheet: u32,
         old_data: Box<Worksheet>,
+        // the defined names local to the sheet, deleted with it
+        old_names: Vec<DefinedName>,
     },
     SetFrozenRowsCount {
         sheet: u32,
